@@ -31,6 +31,7 @@ def Act.below (B T : Nat) : Act → Prop
   | .arrive _ _ => True
   | .eof _ _ => True
   | .connect a p => a < B ∧ p < B
+  | .stopReq c => c < B
   | .stop c => c < B
 
 def OwnersBelow (s : State) (B : Nat) : Prop := ∀ cn cli, ((s.conn cn).half cli).owner < B
@@ -188,6 +189,21 @@ theorem step_bounded {s s' : State} {a : Act} {o : Out} {B T : Nat} (hB : 0 < B)
         have h1 : c' ≠ a := ne_of_le_of_lt hc' ha.1
         have h2 : c' ≠ p := ne_of_le_of_lt hc' ha.2
         simp [h1, h2]
+    · simp at hs
+  | stopReq c =>
+    simp only [Act.below] at ha
+    simp only [step] at hs
+    split at hs
+    · simp only [Option.some.injEq, Prod.mk.injEq] at hs
+      obtain ⟨rfl, -⟩ := hs
+      refine ⟨fun cn' cli' => ?_, fun c' hc' => ?_, fun th' _ => rfl⟩
+      · have h0 := ho cn' cli'
+        have h1 := ho cn' true
+        have h2 := ho cn' false
+        cases cli' <;> simp only [Conn.half] at h0 h1 h2 ⊢ <;> (repeat' split) <;> simp_all
+      · simp only [setCtx_ctx]
+        have : c' ≠ c := ne_of_le_of_lt hc' ha
+        simp [this]
     · simp at hs
   | stop c =>
     simp only [Act.below] at ha
